@@ -27,6 +27,18 @@ suffix the state carries. Three stretches of input produce NO callback in CPytho
 **Regular expressions** are fixed patterns; each has a hand-written matcher below that returns lengths
 relative to the suffix it is given. `\s` is `str.isspace` (`BS.Gen.pyWhitespace`, generated).
 
+**Errors.** `Flag.err` (the driver's `error`; bs4 turns it into `ParserRejectedMarkup`) stands for the `AssertionError`s
+the 3.12 code can raise on this path: `_scan_name`'s "expected name token" (`_markupbase.py:389-392`, reached from
+`parse_marked_section` for `<![` followed by something that is neither a letter nor the end of input) and
+`parse_marked_section`'s "unknown status keyword" (`_markupbase.py:153-156`, `<![foo…`). The other assertions are
+mirrored but cannot fire: `assert match` in `parse_starttag` (parser.py:312, `tagFind` after `starttagopen` matched),
+`assert 0, "interesting.search() lied"` (parser.py:243), the `assert rawdata[i:i+2] == …` guards of the `parse_*`
+functions (their callers have just tested it), `raise AssertionError("we should not get here!")` (parser.py:376:
+`locatestarttagend_tolerant` always matches after `<[a-zA-Z]`). No `ValueError` arises in the tokenizer itself with
+`convert_charrefs=False` (bs4's `handle_charref` can raise one; that is the adapter's business, C04/C06).
+Not modelled because unobservable through the callbacks: `lasttag`, `get_starttag_text()`; the `convert_charrefs=True`
+branches of `goahead` are never taken.
+
 **Loops** use fuel; running out of fuel (or the one arithmetic dead end of `parse_endtag`, see `Act.stuck`) is an
 explicit outcome `Flag.stuck`, proved unreachable in `Proofs/TokenizerTerm.lean`. Core Lean only. -/
 namespace BS.Tokenizer
